@@ -130,6 +130,16 @@ def roundtrip_cases(draw, tier):
     case['cjoin'] = draw(st.sampled_from([None, None, 'and']))
     case['pjoin'] = draw(st.sampled_from([None, None, 'and', 'or']))
     case['k'] = draw(st.sampled_from([None, 1, 1000.0]))
+    if case['cjoin'] == 'and' and len(case['rels']) >= 2 and not case['extra'] and draw(st.booleans()):
+        # a chain: the right-hand side of every line but the last is the left-hand variable of the line after it plus a
+        # constant, so one pass in the listed order leaves the earlier lines broken and the and_ join has to go round again
+        rels = case['rels']
+        for k_ in range(len(rels) - 1):
+            rels[k_]['rhs'] = ['add', ['v', rels[k_ + 1]['i']], ['c', draw(st.sampled_from([1.0, -0.5, 2.0, 0.25, -3.0]))]]
+        for r in rels:
+            r['cmp'] = draw(st.sampled_from(['=', '>=', '<=', '=']))
+        case['rels'] = list(draw(st.permutations(rels)))       # listed in any order
+        case['chain'] = True
     pts = []
     for _ in range(draw(st.integers(1, 6))):
         kind, x = draw(sg.xvectors(case['n']))
@@ -446,6 +456,7 @@ def run_roundtrip(case, ctx):
     pen = generate_penalty(conds, join=J, **kwds) if J is not None else generate_penalty(conds, **kwds)
     ctx.label(sg.scheme_label(case['scheme'], n), 'lines:%d' % len(rels), 'extra:' + (case['extra'] or 'none'),
               'cjoin:%s' % case['cjoin'], 'pjoin:%s' % case['pjoin'])
+    if case.get('chain'): ctx.label('chain-of-dependent-lines')
     for r in rels:
         ctx.label('cmp:' + r['cmp'])
     for p in case['points']:
